@@ -24,7 +24,7 @@ CHUNK = 300
 TASKS_PER_CHILD = 200
 
 RULE = ('case = (mode of the target loop L: idle / running via loop_in_thread ("forever") / loop_in_thread racing with '
-        'the callers ("race") / caller 0\'s own loop / closed; per caller an awaitable script return|raise after no sleep or '
+        'the callers ("race") / caller 0\'s own loop / closed; per caller an awaitable script return|raise (an Exception, a RuntimeError-subclass or a NotImplementedError instance) after no sleep or '
         'sleep d in {0,5,50} ticks and a form coroutine|task|future; a schedule = the thread chosen at every gate).  The REAL '
         'ensure_aw / run_aw_threadsafe / loop_in_thread / _get_loop_lock run under gated threads; gates = L.is_running, '
         'L.call_soon_threadsafe from a foreign thread, every iteration of L, the lock-table read, Lock acquire/release, pool '
@@ -48,6 +48,10 @@ TRUSTED = ['harness/gate.py, harness/c17_drive.py, harness/c17_mon.py (Python mi
 ALLOWED_AXIOMS = []
 
 SLEEPS = [None, 0, 5, 50]
+# 'raise' = an Exception subclass instance, 'raise_rt' = an instance of a RuntimeError subclass,
+# 'raise_ni' = a NotImplementedError instance (the library raises RuntimeError itself: the caller must
+# still get the awaitable's own exception OBJECT); the model only knows "raises its own exception"
+KINDS = ['ret', 'ret', 'ret', 'raise', 'raise_rt', 'raise_ni']
 
 
 def mk(mode, scripts, forms, sched=None, **kw):
@@ -106,6 +110,14 @@ def corpus():
         # seeded C17-m4: the user thread goes on right after the forever-thread took L's lock, before it runs L
         mk('forever', [['ret', 5], ['raise', None]], ['coro', 'coro'], ['m'] + ['jm'] * 8 + ['m'] * 4),
         mk('race', [['ret', 5]], ['coro'], ['m'] + ['jm'] * 8 + ['m'] * 3 + ['c0'] * 3),
+        # seeded C17-m7: the awaitable's OWN exception is a RuntimeError / NotImplementedError instance; the caller must
+        # receive that very object on every dispatch path (borrowed idle loop, running loop, own loop, racing start)
+        mk('idle', [['raise_rt', None], ['raise_ni', 5]], ['coro', 'coro']),
+        mk('idle', [['raise_ni', 5], ['raise_rt', None]], ['task', 'future']),
+        mk('forever', [['raise_rt', 5], ['raise_ni', None]], ['coro', 'future']),
+        mk('race', [['raise_ni', None], ['raise_rt', 5]], ['coro', 'coro']),
+        mk('own', [['raise_rt', None], ['raise_ni', 5]], ['coro', 'task']),
+        mk('closed', [['raise_rt', None], ['raise_ni', None]], ['coro', 'coro']),
         # borrowers queue on the per-loop lock
         mk('idle', [['ret', 50], ['raise', 5]], ['coro', 'coro'], ['c0', 'c0', 'c1', 'c1'] + ['jc0'] * 10 + ['jc1'] * 4),
         # the loop_in_thread doctest shape, two callers, and the racing start
@@ -119,15 +131,15 @@ def corpus():
 # ---- exhaustive layer ------------------------------------------------------------------
 
 PAIRS_QUICK = [
-    ([['ret', 5], ['raise', None]], ['coro', 'coro']),
+    ([['ret', 5], ['raise_rt', None]], ['coro', 'coro']),
     ([['ret', None], ['ret', 50]], ['task', 'future']),
-    ([['raise', 0], ['ret', 5]], ['coro', 'task']),
+    ([['raise_ni', 0], ['ret', 5]], ['coro', 'task']),
 ]
 PAIRS_MORE = [
     ([['ret', None], ['ret', None]], ['coro', 'coro']),
-    ([['raise', 50], ['raise', 5]], ['future', 'coro']),
+    ([['raise', 50], ['raise_rt', 5]], ['future', 'coro']),
     ([['ret', 5], ['ret', 5]], ['task', 'task']),
-    ([['ret', 0], ['raise', 50]], ['future', 'future']),
+    ([['ret', 0], ['raise_ni', 50]], ['future', 'future']),
 ]
 
 
@@ -164,7 +176,7 @@ def gen_exhaustive(tier, seed):
 def _rand_case(rnd, n=None):
     n = n or rnd.choice([3, 3, 3, 2])
     mode = rnd.choice(['idle', 'idle', 'forever', 'race', 'race', 'own', 'closed'] if n == 3 else list(D.MODES))
-    scripts = [[rnd.choice(['ret', 'raise']), rnd.choice(SLEEPS)] for _ in range(n)]
+    scripts = [[rnd.choice(KINDS), rnd.choice(SLEEPS)] for _ in range(n)]
     forms = [rnd.choice(D.FORMS) for _ in range(n)]
     return mk(mode, scripts, forms, rseed=rnd.randrange(1 << 30), stay=rnd.choice([0.0, 0.3, 0.6, 0.85]))
 
@@ -180,7 +192,7 @@ def gen_search(tier, seed):
     # all schedules with <= 2 preemptions of the adversarial two-caller shapes
     jobs = [(mk(mode, scripts, forms), 2, 1500)
             for mode in ('idle', 'race', 'forever')
-            for scripts, forms in [([['raise', 5], ['ret', 5]], ['coro', 'coro']), ([['ret', None], ['ret', 50]], ['coro', 'task'])]]
+            for scripts, forms in [([['raise_rt', 5], ['ret', 5]], ['coro', 'coro']), ([['ret', None], ['raise_ni', 50]], ['coro', 'task'])]]
     with mp.get_context('fork').Pool(C.NPROC) as pool:
         for cs in pool.map(_explore, jobs, chunksize=1):
             out += cs
@@ -226,6 +238,10 @@ def shrink_candidates(case):
         if d is not None:
             sc = [list(x) for x in case['scripts']]
             sc[i] = [k, None if d == 0 else (0 if d == 5 else 5)]
+            out.append(dict(case, scripts=sc))
+        if k in ('raise_rt', 'raise_ni'):
+            sc = [list(x) for x in case['scripts']]
+            sc[i] = ['raise', d]
             out.append(dict(case, scripts=sc))
         if case['forms'][i] != 'coro':
             f = list(case['forms'])
